@@ -21,6 +21,68 @@ def battery(cases, ws):
         cases.q("mismatch", p); cases.q("defs", p)
 
 
+def sched_part(r, tier):
+    """`any number of worker threads`: scan workers visiting different files that define and use the same names, under
+    the cooperative scheduler of the concurrency harness (every interleaving of their DashMap calls is a schedule,
+    as in C09): the index a schedule leaves must be the index of some order of the same visits"""
+    import itertools
+    from .. import conc
+    from . import c09
+    v = r.verdict
+    ok, log = conc.build()
+    if not ok:
+        r.broken.append("cargo build of the concurrency harness (instrumented dashmap) failed: " + log[-400:]); return
+    scs = []
+    for i in range(3 if tier == "quick" else 18):
+        sc = conc.Scenario("sw%d" % i)
+        fs = ["conftest.py", "test_a.py", "test_b.py"][: (3 if i % 3 == 2 else 2)]
+        sc.meta["kind"] = "scan%d" % len(fs)
+        for j, f in enumerate(fs):
+            t = c09.FIX % "foo" + ("\ndef test_%d(foo, bar):\n    pass\n" % j) if i % 2 == 0 else c09.gen_version(r.rng, allow_empty=False)
+            sc.disk.append((f, sc.text(t)))
+            sc.threads[j + 1] = [["fresh", f, sc.text(t)]]
+        tids = sorted(sc.threads)
+        sc.runs = ["run pre"] + ["run seq " + ",".join(map(str, p)) for p in itertools.permutations(tids)]
+        scs.append(sc)
+    res1, rc, dt = conc.run_scenarios(scs, tag="c08a")
+    if rc != 0:
+        r.broken.append("concurrency harness exited with status %s in the sequential pass" % rc)
+    info = {}
+    for sc in scs:
+        rows = res1.get(sc.name, [])
+        seqs = [(dr, d) for (dr, d) in rows if dr.startswith("seq")]
+        steps = {}
+        for dr, d in seqs:
+            for kv in d.get("steps", "").split(","):
+                if ":" in kv:
+                    t, n = kv.split(":"); steps[int(t)] = max(steps.get(int(t), 0), int(n))
+        if not seqs:
+            r.broken.append("no sequential reference for scenario %s" % sc.name); continue
+        info[sc.name] = seqs
+        sc.runs = c09.schedules(r.rng, steps, tier, len(sc.threads))
+    live = [sc for sc in scs if sc.name in info]
+    res2, rc, dt2 = conc.run_scenarios(live, tag="c08b")
+    if rc != 0:
+        r.broken.append("concurrency harness exited with status %s in the schedule exploration" % rc)
+    secs = ("defs", "fdefs", "usages", "ubf")
+    nruns = 0
+    for sc in live:
+        seq_canon = [conc.canon(d["dump"], secs) for (_, d) in info[sc.name]]
+        for (dr, d) in res2.get(sc.name, []):
+            nruns += 1
+            where = f"scan workers {sorted(sc.threads)} of scenario {sc.name} ({sc.meta['kind']}), schedule `{dr}`"
+            if d.get("status", "?") != "ok":
+                msg = f"{where}: {d.get('status')} — the workers did not all complete"
+                v.violation(f"{sc.name}-{nruns}", msg, f"# {msg}\n" + sc.replay_text("run " + dr)); continue
+            c = conc.canon(d["dump"], secs)
+            if c in seq_canon:
+                continue
+            diff = [f"{s_}: {c.get(s_)} vs {[q.get(s_) for q in seq_canon]}" for s_ in secs if all(c.get(s_) != q.get(s_) for q in seq_canon)]
+            msg = f"{where}: the scan leaves an index that no order of the same visits produces — " + "; ".join(diff)[:800]
+            v.violation(f"{sc.name}-{nruns}", msg, f"# {msg}\n# operations: {' '.join(d.get('ops', []))}\n" + sc.replay_text("run " + dr))
+    r.stats["scan_worker_schedules_explored"] = nruns
+
+
 def run(tier, seed):
     r = Run(PROP, MODULE, THEOREMS, tier, seed)
     if not r.prepare():
@@ -82,6 +144,7 @@ def run(tier, seed):
                    f"{cases.meta[other]['order']} answers {answers[other]} (failed hypotheses: {sorted(flags) or 'none'})")
             v.violation(f"{a0}-{idx}", msg, f"# {msg}\n# query #{idx}\n" + cases.replay_text(a0) + cases.replay_text(other))
     r.stats["order_dependent_answers"] = ndiff
+    sched_part(r, tier)
     return r.finish(RULE)
 
 
